@@ -41,6 +41,52 @@ def login_then_bye(io, state):
         state['never_closed'] = True
 
 
+class Decoy(object):
+    """A second Connection object constructed *after* the one under test and
+    never used: it points at a port that refuses connections and carries
+    listeners/handlers that must never be called.  State shared between
+    Connection objects (class- or module-level) shows up as the connection
+    under test using the decoy's address, name or callbacks."""
+
+    def __init__(self):
+        from minecraft.networking.connection import Connection
+        from minecraft.networking.packets import Packet
+        self.port = mcserver.RefusingPort()
+        self.calls = []
+        self.conn = Connection(
+            '127.0.0.1', self.port.port, username='decoy-user',
+            allowed_versions={340},
+            handle_exception=lambda e, i: self.calls.append(('exc', repr(e))),
+            handle_exit=lambda: self.calls.append(('exit',)))
+        self.conn.register_packet_listener(
+            lambda p: self.calls.append(('pkt', type(p).__name__)), Packet,
+            early=True)
+        self.conn.register_exception_handler(
+            lambda e, i: self.calls.append(('handler', repr(e))))
+
+    def verdict(self, run, w):
+        if self.calls:
+            run.violation('isolation/decoy-callbacks', 'callbacks of another, '
+                          'unused Connection object were invoked',
+                          dict(w, calls=self.calls[:4]))
+        self.port.close()
+
+
+def login_then_bye_compressed(io, pv):
+    hs = scripts.read_handshake(io)
+    if hs is None or hs['next_state'] != 2:
+        return
+    codec = codec_for(pv)
+    scripts.login_offline(io, pv, 16, codec)
+    did, dp = codec.encode('play_disconnect', {'reason': '"first"'})
+    io.send_frame(did, dp)
+    io.half_close()
+    try:
+        io.wait_eof(5.0)
+    except mcserver.ScriptTimeout:
+        pass
+
+
 def negotiate(run, rng, sup, order, cfg, sup_all):
     """One connect() conversation.  cfg: allowed (list or None), as_names,
     default, behaviour (kind, value), auth, host."""
@@ -104,9 +150,18 @@ def negotiate(run, rng, sup, order, cfg, sup_all):
                                   allowed_versions=allowed_arg,
                                   initial_version=default_arg, **kw)
         conn.options.address = cfg['host']
-        conn.connect()
+        decoy = Decoy()
+        try:
+            conn.connect()
+        except Exception as e:
+            run.violation('negotiation/connect-raised:%s' % type(e).__name__,
+                          'connect() raised to its caller', dict(
+                              w, error=repr(e)))
+            decoy.port.close()
+            return None
         if not pc.wait_idle(conn, 20.0):
             return 'threads alive: ' + pc.dump_threads()
+        decoy.verdict(run, w)
         server.join(10.0)
         if [e for e in server.errors if e[1] == 'frame']:
             run.violation('negotiation/malformed-client-bytes', 'the client sent '
@@ -232,7 +287,16 @@ def plain_status(run, rng, cfg):
     state = {'handshakes': [], 'request': 0, 'ping': None}
     obj = cfg['status']
 
+    # a third of the status queries are made on an object whose earlier
+    # session (a login with compression, ended by the server) left state behind
+    prior = cfg.get('prior', False)
+    prior_pv = max(cfg['A'], key=__import__('minecraft')
+                   .KNOWN_PROTOCOL_VERSIONS.index)
+
     def handler(io):
+        if prior and io.index == 0:
+            login_then_bye_compressed(io, prior_pv)
+            return
         hs = scripts.read_handshake(io)
         if hs is None:
             return
@@ -268,9 +332,30 @@ def plain_status(run, rng, cfg):
             args['handle_ping'] = None        # documented: print the latency
         elif rng.random() < 0.5:
             args['handle_ping'] = False       # else: leave the default, False
+        if prior:
+            conn.allowed_proto_versions = {prior_pv}
+            conn.connect()
+            if not pc.wait_idle(conn, 20.0):
+                return 'prior session: threads alive'
+            if rec.exceptions or rec.exits != 1:
+                return 'prior session did not end cleanly %r' % (
+                    rec.exceptions[:1],)
+            del rec.exceptions[:]
+            rec.exits = 0
+            conn.allowed_proto_versions = set(cfg['A'])
+            run.count('status_queries.after_compressed_session')
+        decoy = Decoy()
         with contextlib.redirect_stdout(out):
-            conn.status(**args)
+            try:
+                conn.status(**args)
+            except Exception as e:
+                run.violation('plain-status/raised:%s' % type(e).__name__,
+                              'status() raised to its caller',
+                              dict(w, error=repr(e)))
+                decoy.port.close()
+                return None
             idle = pc.wait_idle(conn, 20.0)
+        decoy.verdict(run, w)
         if not idle:
             return 'threads alive: ' + pc.dump_threads()
         server.join(8.0)
@@ -317,7 +402,7 @@ def plain_status(run, rng, cfg):
             bad('plain-status/exit', 'status query must end with the exit '
                 'callback (once) and no error', exits=rec.exits,
                 exc=repr(rec.exceptions[:1]))
-        if state.get('never_closed') or not server.connections[0].eof:
+        if state.get('never_closed') or not server.connections[-1].eof:
             bad('plain-status/not-closed', 'connection not closed after the '
                 'status query')
         return None
@@ -422,11 +507,12 @@ def run(run):
     j = 0
     for hs_mode in ('default', 'custom', 'disabled'):
         for hp_mode in ('default', 'custom', 'disabled'):
-            for rep in range(6 if thorough else 2):
+            for rep in range(9 if thorough else 3):
                 j += 1
                 if not run.mine(j):
                     continue
-                cfg = {'handle_status': hs_mode, 'handle_ping': hp_mode,
+                cfg = {'prior': rep % 3 == 1,
+                       'handle_status': hs_mode, 'handle_ping': hp_mode,
                        'A': rng.sample(sup, rng.choice((1, 2, 5))),
                        'status': {'version': {'name': 'v%d' % j,
                                               'protocol': rng.choice(sup)},
